@@ -259,9 +259,19 @@ class MvStream(Adapter):
         out.append(("two_rows_renamed", "DataFrame"))
         if est["names"] is not None:
             out.append(("renamed", "DataFrame"))
+            # the established labels in another order / one of them repeated: the right width, only known labels,
+            # but different names column by column (features are read by position)
+            out.append(("reordered", "DataFrame"))
+            out.append(("duplicated", "DataFrame"))
         return out
 
     def fault(self, det, kind, cont, p):
+        if kind == "reordered":
+            det.update(pack([[1.0, 2.0]], cont, names=[NAMES[1], NAMES[0]], row=True))
+            return
+        if kind == "duplicated":
+            det.update(pack([[1.0, 2.0]], cont, names=[NAMES[0], NAMES[0]], row=True))
+            return
         if kind == "two_rows":
             X = pack([[1.0, 2.0], [3.0, 4.0]], cont, row=True)
         elif kind == "two_rows_other_width":
@@ -322,6 +332,9 @@ class Batch(Adapter):
             out.append(("one_row_renamed@" + m, "DataFrame"))
             if est["names"] is not None:
                 out.append(("renamed@" + m, "DataFrame"))
+                if not self.univariate and self.width >= 2:
+                    out.append(("reordered@" + m, "DataFrame"))
+                    out.append(("duplicated@" + m, "DataFrame"))
         return out
 
     def fault(self, det, kind, cont, p):
@@ -339,6 +352,10 @@ class Batch(Adapter):
             X = pack(full[:1], cont, names=OTHER[:w])
         elif kind == "renamed":
             X = pack(full, cont, names=OTHER[:w])
+        elif kind == "reordered":
+            X = pack(full, cont, names=list(reversed(NAMES[:w])))
+        elif kind == "duplicated":
+            X = pack(full, cont, names=[NAMES[0]] * w)
         else:
             raise HarnessError(kind)
         getattr(det, method)(X)
@@ -693,7 +710,7 @@ class Inject(System):
         ctx.count("rejections:" + ad.name)
         if est["width"] is not None and kind.split("@")[0] in ("wrong_width", "multicol"):
             ctx.count("width_rule:%s_after_%s" % (cont, "DataFrame" if est["names"] is not None else "array"))
-        if kind.split("@")[0] == "renamed":
+        if kind.split("@")[0] in ("renamed", "reordered", "duplicated"):
             ctx.count("name_rule_rejections")
         state["faulted"] = True
         state["site"] = site
@@ -832,7 +849,7 @@ def tasks(tier, seed):
 _DRIFTERS = [n for n in ADAPTERS]
 _KINDS = ["two_rows", "two_rows_other_width", "two_rows_renamed", "one_row", "one_row_other_width", "one_row_renamed",
           "wrong_width", "multicol", "renamed", "y_true_multi", "y_pred_multi", "y_both_multi",
-          "extra_column", "missing_column"]
+          "extra_column", "missing_column", "reordered", "duplicated"]
 
 TIME_BUDGET = {"quick": 1800, "thorough": 9000}  # safety net for a heavily shared machine; ~25 CPU-s/core quick
 
